@@ -27,11 +27,10 @@ import straightline as sl
 from straightline import Translator, Fn, FP, INT_TYPES, lean_ident, tuple_proj, Uninit
 
 FILES = ["src/ec/ref/ecx/ec.c"]
-FUNCTIONS = ["xMUL", "xMULv2", "ec_ladder3pt", "xDBLMUL", "xDBLMUL_bounded", "DBLMUL", "DBLMUL_generic"]
+FUNCTIONS = ["xMUL", "xMULv2", "ec_ladder3pt", "xDBLMUL", "xDBLMUL_bounded", "DBLMUL", "DBLMUL_generic", "ec_dbl_iter"]
 MACROS = {"BITS", "NWORDS_FIELD", "NWORDS_ORDER", "TORSION_PLUS_EVEN_POWER"}
 WORD = 64
-STILL_HAND = {"ec_dbl_iter": "signed loop count (`n > 0`, `n > 50`) and in-place curve update; hand model dblIter",
-              "DBLMUL2": "fixed 128-bit variant of DBLMUL (two unrolled 64-bit loops); covered by the model jacDBLMUL",
+STILL_HAND = {"DBLMUL2": "fixed 128-bit variant of DBLMUL (two unrolled 64-bit loops); covered by the model jacDBLMUL",
               "ec_biscalar_mul_bounded": "wrapper with a word loop (`acck |= k[i]`) before xDBLMUL_bounded; hand model biscalarMulBounded"}
 
 
@@ -425,6 +424,17 @@ class LT(Translator):
             self.write((a[1],), "if %s then %s else %s" % (mk, y, x), ln)
             self.write((b[1],), t, ln)
             return
+        if f == "ec_dbl":
+            # `ec_dbl(res, curve, P)` is `xDBL(res, P, (ec_point_t const *)curve)`: the first two fields (A, C) of the
+            # curve structure read as a point (type pun, accepted only in this exact wrapper form)
+            res, curve, P = args
+            g = self.W.get_fn("xDBL", ln, self)
+            pc = self.place(curve, ln)
+            if self.type_of(pc) != "ec_curve_t":
+                self.err(ln, "ec_dbl on a non-curve")
+            ac = "{ x := %s, z := %s }" % (self.read(pc + ("A",), ln=ln), self.read(pc + ("C",), ln=ln))
+            pp = self.place(P, ln)
+            return self.write(self.place(res, ln), "xDBL %s %s" % (self.atom(self.read(pp, ln=ln)), ac), ln)
         return super().do_call(e, ln)
 
     def strip(self, e):
